@@ -8,12 +8,17 @@ from props import xmlcommon as X
 QUERIES = "//*;//@*;//comment();//processing-instruction();count(//comment() | //processing-instruction());count(//*);(//*|//@*)[2];//*[last()];//*/@*[1]"
 
 
-def histories(rng, n, max_ops, hostile):
+def histories(rng, n, max_ops, hostile, deep=0):
     out = []
     for _ in range(n):
         h = D.Hist(rng, max_ops=max_ops, hostile=hostile)
         t, ops = h.history()
         out.append((t, ops))
+    for k in range(deep):
+        # trees nested deeper than the parser's own limit can only be built through the DOM
+        h = D.Hist(rng, max_ops=3, hostile=0.0)
+        t, ops = h.history()
+        out.append((t, ops + h.deep_chain(140 + 10 * k) + ["ce:z", "ap:h1:h%d" % (len(h.shadow))]))
     return out
 
 
@@ -59,7 +64,7 @@ def common(chk, prop, thorough, n_quick, n_thorough, max_ops_q, max_ops_t, hosti
         pr["failed"] = list(pr["failed"]) + list(pr2["failed"])
         pr["log"] = pr["log"] + pr2["log"]
     n = n_thorough if thorough else n_quick
-    cases = histories(rng, n, max_ops_t if thorough else max_ops_q, hostile)
+    cases = histories(rng, n, max_ops_t if thorough else max_ops_q, hostile, deep=2 if prop in ("C14", "C12") else 0)
     cases += [(t, ops.split(" ")) for t, ops in (l.split("\t", 1) for l in X.corpus_lines(prop, "found.txt") if "\t" in l)]
     impl, model = run_histories(cases)
     ri = [D.split_records(a) for a in impl]
@@ -125,6 +130,25 @@ def run_c12(chk):
             if v != "ok":
                 mfail.append((t, ops, i, "navigation views disagree after this step", v))
                 break
+    # the same navigation monitor on documents read WITH text expansion (the view xq / xe use): a run of text, CDATA and
+    # references is one merged child there, and first_child / last_child / siblings must still match child_nodes
+    xcases = histories(rng, 500 if thorough else 150, 10, 0.1)
+    ximpl = lib.run_lines(lib.build_harness(), [lib.req("domx", t, "", *ops) for t, ops in xcases], timeout=900, per_line_resume=True)
+    for (t, ops), a in zip(xcases, ximpl):
+        for i, x in enumerate(D.split_records(a)):
+            chk.count(["expanded", t] + ops[:i], nontrivial=i > 0 and x["status"].startswith("ok"))
+            v = x["flags"].get("inv")
+            if v is None and x["status"] in ("abort", "timeout"):
+                mfail.append((t, ops, i, "(text expansion on) the navigation views could not be read after this step (%s)" % x["status"], ""))
+                break
+            if v is not None and v != "ok":
+                # a merged-text node is a VIEW computed from the current children: a handle taken before an edit that merged or
+                # split the run is stale (not a removed node); only what the current child lists say is checked here
+                msgs = [m_ for m_ in v[4:-1].split(";") if "is not listed under the document although" not in m_]
+                if msgs:
+                    mfail.append((t, ops, i, "(text expansion on) navigation views disagree after this step", "BAD(%s)" % ";".join(msgs)))
+                    break
+    chk.cov["expanded_text_stream"] = "%d histories" % len(xcases)
     chk.cov["rule"] = ("%d histories of up to %d DOM Level 1 mutator calls (factories, append/insert/replace/remove, attribute set/remove "
                        "by name and by node, value and data setters, split_text) over live handles chosen among attached, detached, "
                        "self, ancestors, descendants and wrong kinds (%d%% hostile choices); after EVERY step, for every live node: "
@@ -195,7 +219,8 @@ def run_c14(chk):
     # namespace stream: declarations added / removed on ancestors and subtrees moved between scopes, queries that depend
     # on the expanded names of descendants (monitors only: the DOM model knows no namespaces)
     NSQ = ("//*[namespace-uri()='urn:u1'];//*[namespace-uri()='urn:u2'];//*[namespace-uri()='urn:u0'];//*[namespace-uri()=''];"
-           "//@*[namespace-uri()='urn:u1'];//@*[namespace-uri()='urn:u2'];count(//*[namespace-uri()!='']);string(namespace-uri(//*[last()]))")
+           "//@*[namespace-uri()='urn:u1'];//@*[namespace-uri()='urn:u2'];count(//*[namespace-uri()!='']);string(namespace-uri(//*[last()]));"
+           "//*[last()]/namespace::*;name((//*[last()]/namespace::*)[2]);//*[2]/namespace::*[last()];count(//namespace::*)")
     NSDOCS = ["<r xmlns:p='urn:u1' xmlns='urn:u0'><p:a><p:b p:x='1'><c/></p:b></p:a><d xmlns:p='urn:u2' xmlns=''><e><p:f/></e></d></r>",
               "<r><a xmlns:p='urn:u1'><p:b><p:c p:at='v'/></p:b></a><a xmlns:p='urn:u2'><k/></a></r>",
               "<r xmlns='urn:u0'><mid><leaf><x/></leaf></mid><o xmlns='urn:u1'><i/></o></r>"]
